@@ -24,13 +24,13 @@ def count(tier, seed):
 
 def run_case(case):
     R = ref.Recs()
-    spec = case["spec"]
+    spec = case.get("spec")
     try:
-        P, result, view = simcase.simulate(spec, R)
+        P, result, view = simcase.simulate_case(case, R)
     except simcase.Excluded as e:
         return {"records": R.records(), "stats": R.stats, "nontrivial": False, "excluded": e.reason}
     ref.check_conservation(view, R)
     nontrivial = view.T >= 2 and any(np.any(l["vals"][:-1] > 0) for l in view.links)
     for f in simprop.features(view):
         R.count("feature[%s]" % f)
-    return {"records": R.records(), "stats": R.stats, "nontrivial": bool(nontrivial), "sample": simprop.sample_of(spec)}
+    return {"records": R.records(), "stats": R.stats, "nontrivial": bool(nontrivial), "sample": simprop.sample_of_case(case)}
